@@ -127,11 +127,12 @@ def rule_paths(env, shared):
                 none_seen = False
                 done_after_none = False
                 handed = False
+                le_ts = le_st = False
                 for i, bb in enumerate(path):
                     if i > 0:
                         for f in edge_labels(env, ctx, b, path[i - 1], bb):
                             if f[0] == "eq" and len(f) == 3 and any(
-                                    x[0] == "atomic" and x[1] == "load" and T.role_of(x[2])[0] == "serving" for x in (f[1], f[2])):
+                                    T.serving_load(x) is not None for x in (f[1], f[2])):
                                 admitted = True
                             if f[0] == "is_some" and f[2] is True and T.admitting_call(ctx, f[1]) is not None:
                                 admitted = True
@@ -141,11 +142,24 @@ def rule_paths(env, shared):
                                     gated = True
                                 else:
                                     admitted = False  # leaves without the ticket
+                                    le_ts = le_st = False
                             if f[0] == "is_some" and f[2] is False and "Iterator::next" in fmt(f[1]):
                                 none_seen = True
                                 done_after_none = False
-                            if f[0] in ("lt",) and len(f) == 3 and f[2][0] == "atomic":
+                            if f[0] in ("lt",) and len(f) == 3 and (f[2][0] == "atomic" or T.serving_load(f[2]) is not None):
                                 admitted = False
+                                le_ts = le_st = False
+                            if f[0] == "lt" and len(f) == 3 and T.serving_load(f[1]) is not None:
+                                le_ts = le_st = False  # still waiting: now-serving < ticket
+                            # `ticket <= now-serving` and `now-serving <= ticket` on one path: equality
+                            if f[0] == "le" and len(f) == 3 and (T.serving_load(f[2]) is not None
+                                                                 or T.serving_load(f[1]) is not None):
+                                if T.serving_load(f[2]) is not None:
+                                    le_ts = True
+                                if T.serving_load(f[1]) is not None:
+                                    le_st = True
+                                if le_ts and le_st:
+                                    admitted = True
                         held = admitted and gated and not released
                     for evn in by_block.get(bb, []):
                         if evn == "ACCESS":
